@@ -194,6 +194,29 @@ def gen_copula_model_spec(rng, dim=None, kind=None, families=None, exp=False):
     return {"margins": margins, "copula": gen_copula_spec(rng, kind)}
 
 
+def limit_variation(rng, cmspec, allow_infinite, y_hi=0.95):
+    """copula-model specs used by the chain checks: CGMY margins with y >= 1 are moved to 0 < y < 1 unless ``allow_infinite``;
+    with ``allow_infinite`` one margin is made a CGMY margin with 1 < y < 2 (an infinite-variation model) if none is"""
+    ms_list = cmspec["margins"]
+    if not allow_infinite:
+        for ms in ms_list:
+            if ms["family"] == "CGMY" and ms["params"]["y"] >= 1.0:
+                ms["params"]["y"] = r6(rng.uniform(0.05, y_hi))
+                ms["branch"] = "0<y<1"
+        return False
+    if not any(ms["family"] == "CGMY" and ms["params"]["y"] >= 1.0 for ms in ms_list):
+        k = int(rng.integers(len(ms_list)))
+        keep = {key: ms_list[k][key] for key in ("exp", "spot", "r", "d") if key in ms_list[k]}
+        new = gen_model_spec(rng, "CGMY", "1<y<2", exp=False)
+        new.update(keep)
+        new["params"]["y"] = r6(rng.uniform(1.05, 1.7))
+        ms_list[k] = new
+    for ms in ms_list:
+        if ms["family"] == "CGMY" and ms["params"]["y"] >= 1.0:
+            ms["params"]["y"] = min(ms["params"]["y"], 1.7) if ms["params"]["y"] > 1.0 else 1.0
+    return True
+
+
 def build_copula_model(cmspec):
     from rpylib.model.levycopulamodel import LevyCopulaModel
 
